@@ -17,7 +17,16 @@ def line(c):
     return c[0] + " " + " ".join(str(x) for x in c[1:])
 
 
+VIA = ["Cal", "UnionCal", "NamedCal(all)", "CalType::Cal", "CalType::UnionCal", "CalType::NamedCal"]
+
+
 def zcase(c):
+    """the case as the model sees it: the trailing field of addm / addmr names WHICH implementor of DateRoll the harness asks
+    (Cal, UnionCal, NamedCal, the three CalType variants - all always-open calendars); the model has one add_months"""
+    if c[0] == "addm":
+        return [OPS[c[0]]] + list(c[1:5])
+    if c[0] == "addmr":
+        return [OPS[c[0]]] + list(c[1:6])
     return [OPS[c[0]]] + list(c[1:])
 
 
@@ -42,7 +51,7 @@ def gen_cases(ctx):
         lo = max(-400, (1970 - y) * 12 - 11 + 12)
         hi = min(400, (2200 - y) * 12 - 12)
         for rk, rd in [(0, 0), (2, 0), (3, 0), (4, 0), (1, rng.randint(1, 31)), (1, rng.choice([29, 30, 31]))]:
-            cases.append(("addmr", dn(y, m, d), lo, hi - lo + 1, rk, rd))
+            cases.append(("addmr", dn(y, m, d), lo, hi - lo + 1, rk, rd, rng.randrange(6)))
     # (2) roll-day functions: every month 1970-2200
     years = range(1970, 2201) if thorough else sorted(set([1970, 1999, 2000, 2001, 2024, 2100, 2199, 2200] + rng.sample(range(1970, 2201), 12)))
     for y in years:
@@ -99,7 +108,7 @@ def gen_cases(ctx):
             k = k % 12
         rk = rng.choice([0, 1, 1, 2, 3, 4])
         rd = rng.choice([1, 15, 28, 29, 30, 31, rng.randint(1, 31)]) if rk == 1 else 0
-        cases.append(("addm", n, k, rk, rd))
+        cases.append(("addm", n, k, rk, rd, rng.randrange(6)))
     if thorough:
         # every start day of 8 sample years x offsets -400..400 x kinds, as range cases
         for y in [1972, 1999, 2000, 2023, 2024, 2100, 2150, 2199]:
@@ -107,7 +116,7 @@ def gen_cases(ctx):
                 lo = max(-400, (1970 - y) * 12 - 11 + 12)
                 hi = min(400, (2200 - y) * 12 - 12)
                 for rk, rd in [(0, 0), (2, 0), (3, 0), (4, 0), (1, rng.randint(1, 31)), (1, rng.choice([29, 30, 31]))]:
-                    cases.append(("addmr", n, lo, hi - lo + 1, rk, rd))
+                    cases.append(("addmr", n, lo, hi - lo + 1, rk, rd, rng.randrange(6)))
     return cases
 
 
@@ -145,6 +154,8 @@ def run(ctx):
     for c, a, b in zip(cases, impl, model):
         op = c[0]
         ctx.count(op)
+        if op in ("addm", "addmr"):
+            ctx.count("add_months asked of " + VIA[c[-1]])
         if op == "civilr":
             ctx.evaluations += c[2]
         elif op == "ymdr":
@@ -180,7 +191,7 @@ def run(ctx):
                         singles += [("imm", c[1], m), ("eom", c[1], m)]
                         singles += [("roll", c[1], m, rk, rd) for rk, rd in [(1, 1), (1, 27), (1, 28), (1, 29), (1, 30), (1, 31), (1, 32), (1, 33), (2, 0), (3, 0), (4, 0), (0, 0)]]
                 else:
-                    singles = [("addm", c[1], k, c[4], c[5]) for k in range(c[2], c[2] + c[3])]
+                    singles = [("addm", c[1], k, c[4], c[5], c[6]) for k in range(c[2], c[2] + c[3])]
                 ia = run_harness("dates", [line(x) for x in singles])
                 ib = coq_eval("Run.RunC08", "runC08", [zcase(x) for x in singles], ctx.work, tag="drill")
                 diffs = [(x, p, q) for x, p, q in zip(singles, ia, ib) if p != q]
